@@ -134,6 +134,20 @@ def run(ctx):
     reach = common.checked_reach(cg, prog) if roots else {}
     cg.require_resolved(within=set(reach))
     ba = BoundsAnalysis(prog, cg)
+    # every data source is given a result buffer of at least DS_MIN_BUF bytes: assumed inside the data sources (whose
+    # arithmetic on the size - "size - 4 for the dots" - would wrap around for tiny buffers), demanded from every call
+    # site, the registry's indirect call included
+    for f_ in common.datasource_functions(prog) + [x for x in (prog.func('snoopy_datasourceregistry_callById'),
+                                                               prog.func('snoopy_datasourceregistry_callByName')) if x is not None]:
+        szi = next((i for i, p_ in enumerate(f_.params) if 'size_t' in (p_.get('t') or '') or (p_.get('ct') or '').strip() == 'unsigned long'), None)
+        if szi is not None:
+            ba.size_floor[f_.key] = (szi, DS_MIN_BUF)
+    GF = prog.func('snoopy_message_generateFromFormat')
+    if GF is not None:
+        # the limit from which it sizes the buffer it hands to the data sources (limit + 1 bytes)
+        gi = next((i for i, p_ in enumerate(GF.params) if i >= 2 and 'char' not in (p_.get('ct') or '')), None)
+        if gi is not None:
+            ba.size_floor[GF.key] = (gi, DS_MIN_BUF - 1)
     BA[0] = ba
     ba.field_bounds = derive_limits(ctx, prog, cg, ba)
     # ---- side conditions of the exceptions -------------------------------------------------------
@@ -337,6 +351,9 @@ def run(ctx):
         chk.ob = real_ob
 
 
+DS_MIN_BUF = 16
+
+
 def csv_slot_array(f):
     """(decl of the slot array, countChars call, character counted) of a function that allocates its result array
     from the number of separator characters in its input, or None"""
@@ -483,6 +500,7 @@ def proved_in_callers(prog, ba, f, o):
             b2 = BoundsAnalysis(prog, ba.cg)
             b2.field_bounds = ba.field_bounds
             b2.global_facts = ba.global_facts
+            b2.size_floor = ba.size_floor
             _INL_OBLS[g.key] = b2.analyse(gi)
         same = [x for x in _INL_OBLS[g.key] if x.kind == o.kind and x.text == o.text and x.node.line == o.node.line and
                 f.name in (x.node.get('_chain') or ())]
@@ -502,6 +520,7 @@ def _inl_obligations(prog, ba, g):
         b2 = BoundsAnalysis(prog, ba.cg)
         b2.field_bounds = ba.field_bounds
         b2.global_facts = ba.global_facts
+        b2.size_floor = ba.size_floor
         _INL_OBLS[g.key] = b2.analyse(gi)
     return gi, _INL_OBLS[g.key]
 
